@@ -81,8 +81,12 @@ def outcome_fixed_point(case, need, bad):
     """need: set of needed tasks; bad: set of tasks whose own execution fails.
     Returns (started, succeeded, failed, skipped)."""
     started, succeeded, failed, skipped = set(), set(), set(), set()
-    for x in topo(case, need):
-        deps = [d for d in dep_indices(case, x) if d in need]
+    # dependencies first over the WHOLE graph (two needed tasks may be connected only through a cached one)
+    order = [x for x in topo(case, set(range(len(case["tasks"])))) if x in need]
+    for x in order:
+        # every TRANSITIVE dependency that is executed in this invocation counts, also one that is only reachable
+        # through a cached (pruned) experiment (cli/run.md: "all dependencies (and their dependencies, and so on)")
+        deps = [d for d in closure(case, x) if d != x and d in need]
         if all(d in succeeded for d in deps):
             started.add(x)
             if x in bad:
